@@ -55,15 +55,13 @@ func stStrings(fd *ast.FuncDecl) []string {
 	return out
 }
 
-// stReturns returns the return statements of fd, in source order.
+// stReturns returns the top-level statements of fd's body (assignments and returns), in source
+// order: for the small predicates canRead / isAuthoritative that is the whole definition.
 func stReturns(c *Ctx, fd *ast.FuncDecl) []string {
 	var out []string
-	ast.Inspect(fd.Body, func(n ast.Node) bool {
-		if x, ok := n.(*ast.ReturnStmt); ok {
-			out = append(out, c.Expr(x))
-		}
-		return true
-	})
+	for _, st := range fd.Body.List {
+		out = append(out, c.Expr(st))
+	}
 	return out
 }
 
@@ -75,7 +73,7 @@ func genStores(c *Ctx) error {
 	}
 	type spec struct {
 		dir, recv, fn, name, what string
-		kind                       int // 0 if-conditions, 1 string literals, 2 returns
+		kind                       int // 0 if-conditions, 1 SQL string literals, 2 body statements
 	}
 	for _, s := range []spec{
 		{"private/revcache/memrevcache", "memRevCache", "Insert", "revInsertConds", "if conditions of memRevCache.Insert", 0},
@@ -89,8 +87,8 @@ func genStores(c *Ctx) error {
 		{"private/storage/beacon/sqlite", "executor", "DeleteExpiredBeacons", "beaconDeleteExpiredSQL", "string literals of DeleteExpiredBeacons", 1},
 		{"pkg/experimental/hiddenpath", "RegistryServer", "Register", "registerConds", "if conditions of RegistryServer.Register", 0},
 		{"pkg/experimental/hiddenpath", "AuthoritativeServer", "Segments", "segmentsConds", "if conditions of AuthoritativeServer.Segments", 0},
-		{"pkg/experimental/hiddenpath", "", "canRead", "canReadReturns", "return statements of canRead", 2},
-		{"pkg/experimental/hiddenpath", "", "isAuthoritative", "isAuthoritativeReturns", "return statements of isAuthoritative", 2},
+		{"pkg/experimental/hiddenpath", "", "canRead", "canReadReturns", "statements of canRead", 2},
+		{"pkg/experimental/hiddenpath", "", "isAuthoritative", "isAuthoritativeReturns", "statements of isAuthoritative", 2},
 	} {
 		fd, err := c.Func(s.dir, s.recv, s.fn)
 		if err != nil {
